@@ -437,6 +437,39 @@ pub fn gen(tier: &str, rng: &mut Rng, out: &mut Vec<String>) {
             }
         }
     }
+    // text fields: well-formed UTF-8 of boundary lengths in which multi-byte characters straddle every small byte offset
+    // (validate() and the error paths of the text-carrying messages see strings they may slice or measure)
+    {
+        let magic = Network::BSV_Mainnet.magic();
+        let mg = hex::encode(magic);
+        let texts: Vec<String> = {
+            let mut v = Vec::new();
+            for len in [0usize, 1, 2, 31, 32, 33, 34, 63, 64, 65, 255, 256, 257, 258, 300, 1000] {
+                for (ci, ch) in ['\u{e9}', '\u{20ac}', '\u{1f600}'].iter().enumerate() {
+                    for lead in 0..4usize {
+                        if !thorough && (len + ci + lead) % 3 != 0 { continue; }
+                        let mut t = "a".repeat(lead.min(len));
+                        while t.len() + ch.len_utf8() <= len { t.push(*ch); }
+                        while t.len() < len { t.push('z'); }
+                        v.push(t);
+                    }
+                }
+            }
+            v
+        };
+        for t in texts.iter() {
+            let mut msgs: Vec<Message> = Vec::new();
+            msgs.push(Message::Version(Version { version: 70015, services: 37, timestamp: 1, user_agent: t.clone(), start_height: 5, relay: true, ..Default::default() }));
+            msgs.push(Message::Reject(Reject { message: t.clone(), code: 0x10, reason: "r".into(), data: vec![] }));
+            msgs.push(Message::Reject(Reject { message: "tx".into(), code: 0x10, reason: t.clone(), data: vec![7u8; 32] }));
+            msgs.push(Message::Protoconf(Protoconf { version: 2, max_recv_payload_length: 1_048_576, stream_policies: Some(t.clone()) }));
+            msgs.push(Message::Createstrm(Createstrm { association_id: vec![1, 2], stream_type: 1, stream_policy: t.clone() }));
+            for m in msgs {
+                let mut v = Vec::new();
+                if m.write(&mut v, magic).is_ok() { reqs.push(format!("c06.msg {} {}", mg, hexd(&v))); }
+            }
+        }
+    }
     // random payloads under every command, framed; random strings as whole messages
     let magic = Network::BSV_Mainnet.magic();
     let mg = hex::encode(magic);
